@@ -135,26 +135,32 @@ def gate(ctx, report, rule, facts, config):
     n_shared = n_mut = 0
     tfi_key = facts.one(A.WORLD + "::try_fetch_internal").key
     ast_key = facts.one(A.RESID + "::assert_same_type_id").key
-    deferred = []
-    results = {}
+    # every function of World / Entry that reaches the table, directly or through private helpers, is looked at with
+    # those helpers evaluated in place: a helper may hand a cell to its caller, the caller may only borrow it
+    touching = set()
+    for b in facts.bodies.values():
+        if touches_field(b, A.WORLD, "resources"):
+            r = b
+            while r.is_closure and r.parent_key in facts.bodies:
+                r = facts.bodies[r.parent_key]
+            touching.add(r.key)
+    roots = []
     for b in sorted(facts.bodies.values(), key=lambda b: b.key):
-        if b.is_closure:
+        if b.is_closure or b.self_head not in (A.WORLD, A.ENTRY) or b.container != "inherent":
             continue
-        hits = touches_field(b, A.WORLD, "resources") or [h for c in facts.closures_of(b) for h in touches_field(c, A.WORLD, "resources")]
-        if not hits:
-            continue
+        cone = facts.cone([b], stop=lambda x: x.key == tfi_key and b.key != tfi_key)
+        if any(k in touching for k in cone):
+            roots.append(b)
+    for b in roots:
         kind = world_ref_kind(b)
         report.touched(b, config)
-        if b.qname == "<" + A.WORLD + " as std::default::Default>::default":
-            continue
         if kind == "shared":
             n_shared += 1
         else:
             n_mut += 1
         problems = []
-        returns_cell = False
         try:
-            ev, ends = Q.sem(ctx, facts, b, opaque=[tfi_key, ast_key, A.RESID + "::new"] + _downcasts(facts))
+            ev, ends = Q.sem(ctx, facts, b, opaque=([tfi_key] if b.key != tfi_key else []) + [ast_key, A.RESID + "::new"] + _downcasts(facts))
         except Exception as e_:
             report.ob(rule, "table-access/%s" % b.qname, False, "cannot tabulate %s (%s)" % (b.qname, type(e_).__name__), site=b.loc(), config=config)
             continue
@@ -173,47 +179,13 @@ def gate(ctx, report, rule, facts, config):
             for name, where in _cell_uses(ev, ends, lambda s: s in cells or s in gets):
                 ok = name in SHARED_BORROWS | EXCL_BORROWS
                 if name == "<return>":
-                    if b.key == tfi_key and b.raw.get("unsafe"):
-                        ok = True
-                    elif not b.raw.get("pub") and b.container == "inherent":
-                        returns_cell = True   # a private helper: decided at its callers
-                        ok = True
+                    # the audited unsafe escape hatch, or a private helper whose callers are all looked at here with it in place
+                    ok = (b.key == tfi_key and bool(b.raw.get("unsafe"))) or (not b.raw.get("pub") and not str(b.raw.get("vis", "")).startswith("Public"))
                 if not ok:
                     problems.append("the looked-up cell flows into `%s`%s (only the cell's borrow calls may see it)" % (name, " at %s" % where if where else ""))
-        results[b.key] = not problems
-        if returns_cell:
-            deferred.append(b)
         report.ob(rule, "table-access/%s" % b.qname, not problems, "; ".join(sorted(set(problems))) if problems else
                   "%s access: table used through %s only, cells go to borrow calls" % (kind, "get/contains_key/is_empty" if kind == "shared" else "the map API"),
-                  site=b.loc(hits[0]) if hits and b.blocks and hits[0] < len(b.blocks) else b.loc(), config=config)
-    # private helpers that hand a cell to their caller: every caller must itself only borrow it
-    for hb in deferred:
-        callers = [cb for cb, bb in facts.callers().get(hb.key, [])]
-        roots = {}
-        for cb in callers:
-            r = cb
-            while r.is_closure and r.parent_key in facts.bodies:
-                r = facts.bodies[r.parent_key]
-            roots[r.key] = r
-        bad = []
-        for r in roots.values():
-            try:
-                ev, ends = Q.sem(ctx, facts, r, opaque=[tfi_key, ast_key, A.RESID + "::new"] + _downcasts(facts))
-            except Exception:
-                bad.append(r.qname)
-                continue
-            gets = set()
-            for e in ends:
-                for x in _deep_all(e.path.events):
-                    if x[0] == "call" and not x[2].local and x[3] and _table_recv(ev, x[3][0]) and x[2].name == "get":
-                        gets.add(x[4])
-            cells = set(("field", ("variant", g, "Some"), "0", "std::option::Option") for g in gets)
-            uses = _cell_uses(ev, ends, lambda s: s in cells or s in gets)
-            if [n for n, _ in uses if n not in SHARED_BORROWS | EXCL_BORROWS] or not gets:
-                bad.append(r.qname)
-        report.ob(rule, "cell-helper/%s" % hb.qname, bool(roots) and not bad,
-                  "private helper: the cell it hands out only goes to borrow calls in %s" % sorted(r.qname.rsplit("::", 1)[1] for r in roots.values()) if roots and not bad else
-                  "the cell handed out by %s escapes the borrow API in %s" % (hb.qname, bad or "(no caller)"), site=hb.loc(), config=config)
+                  site=b.loc(), config=config)
     report.floor(rule, "bodies reaching the table through &World", n_shared, 6, config=config)
     report.floor(rule, "bodies reaching the table through &mut World", n_mut, 4, config=config)
     # callers of the unsafe escape hatch only borrow
@@ -239,7 +211,16 @@ def gate(ctx, report, rule, facts, config):
         for b, bb in uses[name]:
             ok = name in allowed
             if name in ("into_inner", "get_mut"):
-                ok = ok and world_ref_kind(b) in ("mut", "owned")
+                kind = world_ref_kind(b)
+                if kind is None:
+                    # no World in sight: fine if what is opened is a cell the function owns (it was taken out of the table)
+                    rootb = b
+                    while rootb.is_closure and rootb.parent_key in facts.bodies:
+                        rootb = facts.bodies[rootb.parent_key]
+                    owned_cell = any(rootb.locals[i]["ty"].startswith(CELL + "<") for i in range(1, rootb.arg_count + 1))
+                    ok = ok and owned_cell and name == "into_inner"
+                else:
+                    ok = ok and kind in ("mut", "owned")
             if not ok:
                 report.ob(rule, "cell-api/%s/%s" % (name, b.qname), False,
                           "AtomicRefCell::%s in %s bypasses the borrow flag" % (name, b.qname), site=b.loc(bb), config=config)
@@ -592,13 +573,30 @@ def assert_rules(ctx, report, rule, facts, config):
             continue
         n += 1
         report.touched(b, config)
-        bt = prog.bt(b)
+        from . import semq as Q
         idp = [i for i in range(1, b.arg_count + 1) if b.locals[i]["ty"] == A.RESID][0]
-        asserts = [bb for bb, t in b.normal_calls() if Callee(t["func"]).key == ast.key and bt.call_args(bb)[0] == ("param", idp)
-                   and _type_args(Callee(t["func"])) == gens[:1]]
-        accesses = touches_field(b, A.WORLD, "resources")
-        ok = len(asserts) >= 1 and accesses and all(bt.cfg.dominates(asserts[0], x) and x != asserts[0] for x in accesses)
-        report.ob(rule, "asserted/%s" % b.qname, ok, "id.assert_same_type_id::<%s>() dominates every access to the table" % gens[0] if ok else
+        # on every path (helpers looked into) the id is asserted for the method's own type parameter before the
+        # table is touched
+        try:
+            ev, ends = Q.sem(ctx, facts, b, opaque=[ast.key, A.RESID + "::new"] + _downcasts(facts))
+        except Exception as e_:
+            report.ob(rule, "asserted/%s" % b.qname, False, "cannot tabulate %s (%s)" % (b.qname, type(e_).__name__), site=b.loc(), config=config)
+            continue
+        ok = True
+        touched = 0
+        for e in ends:
+            asserted = False
+            for x in _deep_all(e.path.events):
+                if x[0] != "call":
+                    continue
+                if x[2].key == ast.key and Q.strip(ev, x[3][0]) == ("param", idp) and ev.targs(x[4])[:1] == gens[:1]:
+                    asserted = True
+                elif not x[2].local and x[3] and _table_recv(ev, x[3][0]) and x[2].name not in ("deref", "deref_mut", "as_ref", "as_mut", "borrow", "len", "is_empty"):
+                    touched += 1
+                    if not asserted:
+                        ok = False
+        ok = ok and touched >= 1
+        report.ob(rule, "asserted/%s" % b.qname, ok, "id.assert_same_type_id::<%s>() comes before every access to the table" % gens[0] if ok else
                   "%s takes a ResourceId and a type parameter but reaches the table without asserting that they agree: a later typed fetch would reinterpret memory" % b.qname,
                   site=b.loc(), config=config)
     report.floor(rule, "id-taking typed World methods", n, 4, config=config)
@@ -661,7 +659,7 @@ def insert_rules(ctx, report, rule, facts, config):
             n += 1
             args = bt.call_args(bb)
             if c.name == "insert":
-                ok = b.qname == A.WORLD + "::insert_by_id" and _stores_ok(ctx, facts, b, "insert")
+                ok = _stores_ok(ctx, facts, b, "insert")
                 report.ob(rule, "stores/%s" % b.qname, ok, "resources.insert(id, AtomicRefCell::new(Box::<R>::new(r))) with the asserted id" if ok else
                           "resource table insertion in %s does not store Box::<R>::new(r) under the asserted id" % b.qname, site=b.loc(bb), config=config)
             elif c.name == "entry":
@@ -791,16 +789,40 @@ def _stores_ok(ctx, facts, b, what):
     ast = A.RESID + "::assert_same_type_id"
     try:
         if what == "insert":
-            ev, ends = Q.sem(ctx, facts, b, opaque=[ast])
+            # whichever function it is in: the value is Box::<X>::new(its argument) in a fresh cell and the key is either
+            # ResourceId::new::<X>() or an id asserted for X earlier on the path
+            rootb = b
+            while rootb.is_closure and rootb.parent_key in facts.bodies:
+                rootb = facts.bodies[rootb.parent_key]
+            ev, ends = Q.sem(ctx, facts, rootb, opaque=[ast, A.RESID + "::new"])
             n = 0
             for e in ends:
                 if e.kind != "return":
                     continue
-                ins = [x for x in _deep(e.path.events) if x[0] == "call" and x[2].name == "insert" and not x[2].local and _table_recv(ev, x[3][0])]
+                evs = _deep(e.path.events)
+                ins = [x for x in evs if x[0] == "call" and x[2].name == "insert" and not x[2].local and _table_recv(ev, x[3][0])]
                 if len(ins) != 1:
                     return False
-                key, val = ins[0][3][1], ins[0][3][2]
-                if Q.strip(ev, key) != ("param", 2) or not _boxed_as(ev, val, "R", lambda x: x == ("param", 3)):
+                key, val = Q.strip(ev, ins[0][3][1]), ins[0][3][2]
+                if not (Q.is_call(ev, val, "new") and CELL in Q.callee_of(ev, val).path):
+                    return False
+                boxed = val[2][0]
+                while isinstance(boxed, tuple) and boxed[0] == "cast":
+                    boxed = boxed[2]
+                if not (Q.is_call(ev, boxed, "new") and "Box" in Q.callee_of(ev, boxed).path and ev.targs(boxed)):
+                    return False
+                x_ty = ev.targs(boxed)[0]
+                if boxed[2][0][0] != "param":
+                    return False
+                if Q.is_call(ev, key, "new") and Q.callee_of(ev, key).self_head == A.RESID:
+                    if ev.targs(key) != [x_ty]:
+                        return False
+                elif key[0] == "param":
+                    pos = evs.index(ins[0])
+                    asserted = [y for y in evs[:pos] if y[0] == "call" and y[2].name == "assert_same_type_id" and Q.strip(ev, y[3][0]) == key and ev.targs(y[4])[:1] == [x_ty]]
+                    if not asserted:
+                        return False
+                else:
                     return False
                 n += 1
             return n >= 1
